@@ -73,10 +73,16 @@ def vspec(text):
     derived = table('spec_needs_s', needs_s) + table('spec_needs_rs', needs_rs)
     derived += ('pub open spec fn spec_n_messages(p: HandshakePattern) -> int {\n    match p {\n'
                 + '\n'.join('        HandshakePattern::%s => %d,' % (n, len(msgs)) for (n, pi, pr, msgs) in pats) + '\n    }\n}\n')
+    # C12/C02: every pattern is executable from exactly the keys the builder demands - one computation per pattern
+    keys_lemma = ('@items handshakestate | -\n//- GENERATED: one `by (compute_only)` evaluation of the abstract key-availability simulation per pattern\n'
+                  '//# props C02,C12\npub proof fn lemma_table_keys(p: crate::params::HandshakePattern)\n'
+                  '    ensures ks_session_ok(crate::params::patterns::spec_pattern(p).msgs, 0, ks_init(p, true), ks_init(p, false))\n{\n    match p {\n'
+                  + '\n'.join('        crate::params::HandshakePattern::%s => { assert(ks_session_ok(crate::params::patterns::spec_pattern(crate::params::HandshakePattern::%s).msgs, 0, ks_init(crate::params::HandshakePattern::%s, true), ks_init(crate::params::HandshakePattern::%s, false))) by (compute_only); },' % (n, n, n, n) for (n, pi, pr, msgs) in pats)
+                  + '\n    }\n}\n')
     return ('@items params::patterns | -\n'
             '//- GENERATED from spec/noise_patterns.txt by framework/gen_patterns.py on every run\n'
             'pub struct SpecPattern { pub pre_i: Seq<Token>, pub pre_r: Seq<Token>, pub msgs: Seq<Seq<Token>> }\n'
-            'pub open spec fn spec_pattern(p: HandshakePattern) -> SpecPattern {\n    match p {\n' + '\n'.join(arms) + '\n    }\n}\n' + derived), [p[0] for p in pats]
+            'pub open spec fn spec_pattern(p: HandshakePattern) -> SpecPattern {\n    match p {\n' + '\n'.join(arms) + '\n    }\n}\n' + derived + keys_lemma), [p[0] for p in pats]
 
 
 if __name__ == '__main__':
